@@ -24,8 +24,8 @@ TRANSLATORS = {
     "C17": [("c17.py", "gen/C17Tables.v")],
     "C16": [("c16.py", "gen/C16Tables.v")],
     "C19": [("c19.py", "gen/C19Tables.v")],
-    "C20": [("c20.py", "gen/C20Tables.v")],
-    "C40": [("c40.py", "gen/C40Tables.v")],
+    "C20": [("c16.py", "gen/C16Tables.v")],
+    "C40": [("c16.py", "gen/C16Tables.v"), ("c40.py", "gen/C40Tables.v")],
 }
 COPY_DIRS = ["programs/store/src", "programs/treasury/src", "programs/timelock/src", "programs/competition/src",
              "programs/liquidity-provider/src", "crates/utils/src", "crates/model/src", "crates/programs/src", "crates/programs/idls"]
@@ -54,13 +54,18 @@ def main():
         os.makedirs(os.path.join(coq, "gen"))
         shutil.copytree(os.path.join(ROOT, "coq", "lib"), os.path.join(coq, "lib"), ignore=shutil.ignore_patterns("*.vo*", "*.glob", ".*"))
         shutil.copytree(os.path.join(ROOT, "coq", pid), os.path.join(coq, pid), ignore=shutil.ignore_patterns("*.vo*", "*.glob", ".*"))
+        for dep in {"C40": ["C01", "C16"], "C20": []}.get(pid, []):
+            shutil.copytree(os.path.join(ROOT, "coq", dep), os.path.join(coq, dep), ignore=shutil.ignore_patterns("*.vo*", "*.glob", ".*"))
         for script, gen in TRANSLATORS[pid]:
             r = subprocess.run([sys.executable, os.path.join(ROOT, "translate", script), repo, os.path.join(coq, gen)], stdout=subprocess.PIPE, stderr=subprocess.STDOUT, text=True)
             if r.returncode != 0:
                 print("CAUGHT by translator:", r.stdout.strip()[-400:])
                 return 0
         files = ["lib/Base.v"] + [g for _, g in TRANSLATORS[pid]]
-        order = subprocess.run("coqdep -Q . GV -sort " + " ".join(sorted(f"{pid}/" + f for f in os.listdir(os.path.join(coq, pid)) if f.endswith(".v"))), shell=True, cwd=coq, stdout=subprocess.PIPE, stderr=subprocess.DEVNULL, text=True).stdout.split()
+        vfiles = []
+        for d in [pid] + {"C40": ["C01", "C16"]}.get(pid, []):
+            vfiles += sorted(f"{d}/" + f for f in os.listdir(os.path.join(coq, d)) if f.endswith(".v") and not (d != pid and f in ("Props.v", "Corr.v")) and not (d == "C01" and f != "Model.v"))
+        order = subprocess.run("coqdep -Q . GV -sort " + " ".join(vfiles), shell=True, cwd=coq, stdout=subprocess.PIPE, stderr=subprocess.DEVNULL, text=True).stdout.split()
         seen = []
         for f in files + [o for o in order if o.endswith(".v")]:
             f = os.path.normpath(f)
